@@ -71,7 +71,7 @@ def nullable_rep(pp, root):
                 nul[k] = True
                 changed = True
     for e in nodes.values():
-        if isinstance(e, pp.core._MultipleMatch) and e.expr is not None and nul[id(e.expr)]:
+        if isinstance(e, (pp.core._MultipleMatch, pp.IndentedBlock)) and e.expr is not None and nul[id(e.expr)]:
             return True
         for ig in e.ignoreExprs:
             if nul[id(ig)]:
